@@ -176,14 +176,14 @@ def step (s : St) : Op → St × List Out
   | .resumeReq up => (s, emit up (.resume s.lastIn))
   | .resumed h re up =>
     -- resumeStreamManagement(h): take the covered packets out, enableStreamManagement(false) (switch
-    -- on, write the rest again), and only then report (repo commit 250563e)
+    -- on, write the rest again), and only then report (repo commit 8fe1a13)
     let t := takeHandled { s with unacked := keptPart h s.unacked }
     let e := enableCore t.1 false up
     let f1 := fire .acked re up e.1 t.2
     let f2 := fire .acked re up f1.1 (ackedPart h s.unacked)
     (f2.1, e.2 ++ f1.2 ++ f2.2)
   | .resumeFailed h =>
-    -- onResumeFailed → setHandledByFailedSession (repo commit 7bf4745)
+    -- onResumeFailed → setHandledByFailedSession (repo commit 29f1a4c)
     (match h with
      | some n => { s with handled := some n }
      | none => s, [])
